@@ -234,6 +234,12 @@ def run(ctx) -> None:
         ok = must_reach_in_iteration(cfg, lp, adds, val)
     rep.add("C03.R3", f"{grn.qname}:all-targets-blocked", ok, grn.loc(), "every target of a ready gate (other than END and the gate itself) is blocked for this step" if ok else "a target of a ready gate can escape the block under an additional condition (e.g. because it is itself a ready gate): it runs in the deciding gate's own step, before the decision exists")
 
+    # a runnable gate decides before its co-runnable targets even when the gate itself is postponed behind the producer of
+    # a signal it waits for: the block is computed from the gates that are ready before that deferral
+    from .c17 import check_block_before_deferral
+
+    check_block_before_deferral(ctx, "C03.R3")
+
     # ---- R4 ---------------------------------------------------------------------
     check_end_never_cleared(ctx, "C03.R4")
     gan = db.func("runners._shared.helpers._get_activated_nodes")
